@@ -41,7 +41,7 @@ def big_pipe(ctx, verdict, cases, name="distx"):
                     parts.append("DistExactOK(%s, %d, 1000000000, %s)" % (ec.tla_int(g), sc, SPEC[c["op"]][j] % P))
         exprs.append(" /\\ ".join(parts))
         sigs.append("dist|big|%s|%s|%s" % (c["op"], c["fam"].split("/")[0], why))
-    return ec.apalache_obs(ctx, verdict, "DistX", exprs, cases, sigs, name, per_module=8 if ctx.quick else 40)
+    return ec.apalache_obs(ctx, verdict, "DistX", exprs, cases, sigs, name, per_module=8 if ctx.quick else 16)
 
 
 def apparent_error(c, o):
@@ -110,7 +110,7 @@ def run(ctx, verdict):
                 b = [j // 9, (j // 3) % 3, j % 3]
                 cases.append(dict(op="d3", a=a, b=b, n=3, cd=[[r.randrange(27), r.randrange(27)] for _ in range(24)]))
         ec.pipe("dist3")(ctx, verdict, cases)
-    n = 36 if ctx.quick else 1200
+    n = 36 if ctx.quick else 300
     big = []
     for op, dim in (("x2", 2), ("x3", 3)):
         big += [dict(c, op=op) for c in ec.seg_pairs(ctx.seed + dim, n, grids=(1 << 10, 1 << 16, 1 << 20), dim=dim)]
